@@ -49,9 +49,12 @@ func (g *whichOneofGen) genOneof(oneof *protogen.Oneof) {
 	g.P("return nil")
 	g.P("}")
 	// switch the type
-	g.P("switch x.", oneof.GoName, ".(type) {")
+	g.P("switch o := x.", oneof.GoName, ".(type) {")
 	for _, field := range oneof.Fields {
 		g.P("case *", g.QualifiedGoIdent(field.GoIdent), ":")
+		g.P("if o == nil {")
+		g.P("return nil")
+		g.P("}")
 		g.P("return x.Descriptor().Fields().ByName(\"", field.Desc.Name(), "\")")
 	}
 	g.P("}")
